@@ -1872,6 +1872,9 @@ func c18SeedsAlwaysCandidates(p *Program, r *Report) {
 				if ex, isEx := v.(*ssa.Extract); isEx {
 					v = ex.Tuple
 				}
+				if _, isConst := v.(*ssa.Const); isConst {
+					continue // a constant (no seeds) is not a list captured at construction
+				}
 				c, isCall := v.(*ssa.Call)
 				if !isCall || c.Parent() != getter.fn {
 					fresh = false
@@ -1904,6 +1907,11 @@ func (p *Program) funcValuesStoredTo(f *types.Var) []storedFunc {
 			return
 		case *ssa.ChangeType:
 			resolve(x.X, pos, depth)
+			return
+		case *ssa.Phi:
+			for _, e := range x.Edges {
+				resolve(e, pos, depth)
+			}
 			return
 		case *ssa.Parameter:
 			if depth < 2 {
